@@ -29,23 +29,47 @@ MANIFEST = {
             "RecursionError). The model is tied to the code by translator/uml.py (branch conditions, template filters, file-name dictionaries, "
             "template directory listing regenerated from umlgen.py) and by differential runs on the shipped diagrams and mutants of them "
             "(GetOperationPerVisibility vs ops_of with the theorem's fuel, generated file set vs files_of and vs Spec.expected_files).",
-    "note": "Input adaptor not modelled: kojen's blob parser produces the class diagram objects; parameter type/name/default rendering is taken "
-            "from LanguageCPP's own helpers. 'Accepted by a C++ compiler' is an observation (g++ 14 -fsyntax-only), not a theorem. C#: file set and "
-            "crash observation only (no C# compiler). Known findings K-C19-*.",
+    "adaptor": "INPUT ADAPTOR (project file -> class diagram objects), now modelled: Model/UmlBlob.v = vppfs.ParseBLOB_Recursive / "
+               "Get_ValuesFromOutside, vppclassdiagram's Class / ClassOperation / ClassAttribute / Package / Inheritance / Association parsing, "
+               "namespaces from the package chain, ExtractClassDiagram, and LanguageCPP's GetTypeAndNameFromMultiplicityAndModifier / "
+               "GetDefaultFormatFromMultiplicityAndModifier / Class.GetContainerMultiplicityType; adaptor d name = the cdiagram the generator model "
+               "consumes. THEOREMS: C19_adaptor_text_transparent (for every structured blob in the stated domain -- plain keys, values, ids; no free "
+               "text with braces or separators; no apostrophe -- parsing str(print) gives exactly the dictionary the blob stands for: composition of "
+               "the stack-machine theorem parse_blob_sem, the field theorem values_segments and mass_repr), C19_adaptor_roundtrip_partial (hence "
+               "loading the project that the ASSUMED writer encode_cdiagram produces equals loading from those dictionaries: the text layer is "
+               "transparent), C19_adaptor_others_no_influence (whatever a diagram's own rows give, every project that hosts them gives: rows of other "
+               "diagrams, in any order, have no influence), C19_adaptor_visibilities (every cdiagram the adaptor returns has public/protected/private "
+               "operations only, so wf_vis needs no hypothesis and K-C19-4 cannot arise from a project file), C19_files_from_project / "
+               "C19_decl_def_from_project / C19_realised_from_project (the generator theorems stated from the project rows), C19_adaptor_calibration "
+               "(the assumed writer reproduces every row of both shipped class diagrams byte for byte; 78 of their 88 blobs lie in the domain of the "
+               "text theorem), C19_adaptor_source_shape (every string literal of the modelled functions pinned), C19_adaptor_name_refuted (operator< "
+               "is read as operator). WRITER ASSUMPTION: Model/UmlWriter.v (structured blobs: fields, reference lists, owned elements, in any order). "
+               "NOT a theorem: that the dictionaries of a SEMANTIC class (name, flags, operations ...) are turned into exactly that class by the object "
+               "builders (tied by differential runs only: shipped diagrams, synthesised projects written from object graphs and read back, damaged "
+               "projects with agreeing exceptions).",
+    "note": "Trusted: Coq kernel, extraction, translators uml.py / umlblob.py / vpp.py, sqlite3, CPython str methods and bytes.__repr__ (tied by "
+            "execution). The Visual Paradigm writer for class diagrams is an ASSUMPTION calibrated on the one shipped project. The step from the "
+            "parsed dictionaries to Class/Operation objects is modelled and differentially tied but its read-back theorem is stated only at the "
+            "dictionary level (C19_adaptor_roundtrip_partial). 'Accepted by a C++ compiler' is an observation (g++ 14 -fsyntax-only), not a theorem. "
+            "C#: file set and crash observation only (no C# compiler). Known findings K-C19-*.",
 }
+MANIFEST["text"] += " " + MANIFEST.pop("adaptor")
 RULE = ("the two shipped class diagrams and mutants of them (1-4 random edits of the parsed object graph: rename/remove/retype classes, "
         "rename packages, rename/remove/retype operations, parameters, attributes, relationships, visibility, copying a realised operation "
         "into the class), namespace folders on/off, export macro empty/'DLL_API', C++ and C# back ends; a mutant is non-trivial when the "
         "generator produced at least one class with operations; distinct = distinct (diagram, edits, options)")
 ASSUMPTIONS = [
-    "operation visibilities are public/protected/private (a 'package' operation is defined but never declared: K-C19-4)",
+    "operation visibilities are public/protected/private: a theorem for every diagram read from a project file (C19_adaptor_visibilities); a 'package' operation exists only in in-memory mutants (K-C19-4)",
+    "adaptor: names, values and ids are plain text (printable ASCII without = < > ; \\ \" ' ( ) , and without leading/trailing blanks), no ':' in ids/names/types of element headers, free text without braces and separators (K-C19-6 outside)",
     "no realisation cycle among pure virtual interfaces (C19_cycle_refuted: RecursionError otherwise)",
     "files_hyp: class names non-empty without '.' and '/', namespace not ending in a separator, distinct output paths (two classes of one name in different packages collide when namespace folders are off: K-C19-5 is exactly distinct_paths = false)",
     "multiplicity 1 of a definition needs distinct signatures per class: an operation reached through two realisation paths is emitted twice (K-C19-1b); an operation both declared in the class and realised is emitted once since the fix (K-C19-1)",
     "no inheritance entry points to a class outside the diagram (closed; KeyError otherwise)",
 ]
-TRUSTED = ["Coq 8.16.1 kernel (coqc; coqchk in the thorough tier)", "axioms: none", "translator/uml.py", "extraction: ExtrOcamlBasic + ExtrOcamlNativeString",
-           "input adaptor (not modelled): vppclassdiagram's blob parser and LanguageCPP.GetTypeAndNameFromMultiplicityAndModifier / GetDefaultFormatFromMultiplicityAndModifier",
+TRUSTED = ["Coq 8.16.1 kernel (coqc; coqchk in the thorough tier)", "axioms: none", "translator/uml.py, translator/umlblob.py", "extraction: ExtrOcamlBasic + ExtrOcamlNativeString",
+           "assumed, not kojen code: the Visual Paradigm writer for class diagrams (Model/UmlWriter.v), calibrated on the shipped project",
+           "modelled, not verified: sqlite3 row order / PRIMARY KEY, CPython str methods, bytes.__repr__, int() on multiplicities (ASCII digits, sign, blanks only)",
+           "harness/umlblob.py: Python twin of the writer (objects -> structured blobs -> bytes) used to synthesise project files; its output is read by the real adaptor and by the model",
            "harness tokenizer for generated .h/.cpp (line based)", "g++ 14 for 'accepted by a C++ compiler'"]
 ALLOWED_AXIOMS = []
 
@@ -337,6 +361,30 @@ def adaptor_ties(ctx):
         ctx.count("adaptor_malformed_%s" % ("loads" if real else "rejected"))
 
 
+def separator_probe(ctx):
+    """outside the domain of the adaptor theorem (C19_adaptor_name_refuted): an operation called operator< in a project file"""
+    cd = us.load("TestClassDiagram")
+    target = next(c for c in cd.classes.values() if c.OPERATIONS and not c.PURE_VIRTUAL_INTERFACE)
+    target.OPERATIONS[0].NAME = "operatorLT"
+    try:
+        db, name = ub.project_rows(random.Random(7), cd)
+    except ub.Unencodable:
+        return
+    ms = [m[:4] + (m[4].replace(b'"operatorLT"', b'"operator<"'),) for m in db[2]]
+    with kj.scratch("kjv-umlsep-") as d:
+        path = ub.project_path(d)
+        vs.write_project(path, (db[0], db[1], ms))
+        real, cd2, err = ub.real_load(path, name)
+    if ctx.km is not None and real != ctx.km.call("ub_load", vs.db_v((db[0], db[1], ms)), name):
+        ctx.tie_broken("correspondence ExtractClassDiagram vs UmlBlob.load_cdiagram (operation called operator<)", {"error": err})
+    names = [o.NAME for c in (cd2.classes.values() if cd2 else []) for o in c.OPERATIONS]
+    ctx.case(("adaptor-separator-probe",))
+    if "operator<" not in names:
+        ctx.violation("an operation drawn as operator< is read from the project file as %r" % [n for n in names if n.startswith("operator")][:1],
+                      {"finding_key": "uml-adaptor:name-with-separator", "finding_class": "uml-adaptor:name-with-separator", "label": "TestClassDiagram",
+                       "mut_seed": 0, "nedits": 0, "separator_probe": True})
+
+
 def adaptor_case(ctx, stack, cd, seed, meta=None):
     """write cd (normalised in place) as a project file through the assumed writer, read it back with the real adaptor and with
     the model; returns (path, diagram name, objects read back) or None when the object graph has no project-file form"""
@@ -456,6 +504,7 @@ def run(ctx):
     derived_project_probe(ctx)
     if ctx.km is not None:
         adaptor_ties(ctx)
+    separator_probe(ctx)
     directed_probes(ctx)
     n = ctx.budget(60, 200)
     cases = [(label, 0, 0) for label in us.DIAGRAMS] + [("TestClassDiagram", -1, 0)]
@@ -501,6 +550,10 @@ def replay(ctx, data):
     if data.get("no_failing_input_found"):
         print(json.dumps(data.get("no_longer_checks"), indent=1, default=repr)[:3000])
         return False
+    if data.get("separator_probe"):
+        before = len(ctx.violations) + len(ctx.known)
+        separator_probe(ctx)
+        return len(ctx.violations) + len(ctx.known) == before
     cd, edits = build(data["label"], data["mut_seed"], data["nedits"])
     if data["mut_seed"] == -1:
         us.add_cycle(cd)
